@@ -1696,7 +1696,7 @@ func genC08(g *Gen) {
 	if !child {
 		// supporting test outside the model: the same generator under the race detector (first, in
 		// its own process: a fatal "concurrent map writes" there is an output value, not a crash here)
-		in := L(NI(g.Vol(40, 600)), N(r.U64()%1000000))
+		in := L(NI(g.Vol(30, 600)), N(r.U64()%1000000))
 		out := run0802(in)
 		built := len(out.L) > 2 && out.L[0].IsTrue() && out.L[2].Int() > 0
 		if !built {
@@ -1709,13 +1709,13 @@ func genC08(g *Gen) {
 	nsched := g.Vol(8, 32)
 	// large trees: 1000-2000 small files, all needed; under the gated schedules far more entries are
 	// announced than any bound on concurrently open writers before the first DATA comes back
-	for i, nl := 0, g.Vol(2, 12); i < nl && (!child || i < 1); i++ {
+	for i, nl := 0, g.Vol(2, 12); i < nl && !child; i++ {
 		nf := 1000 + r.Intn(1001)
 		var view []*MNode
 		for k := 0; k < nf; k++ {
 			view = append(view, c04File(fmt.Sprintf("f%05d", k), r.Intn(4), r.U64(), c04Mt+int64(k)))
 		}
-		in := L(ViewSx(view), ViewSx(nil), NI(g.Vol(4, 8)), N(r.U64()%1000000), NI(1+r.Intn(3)))
+		in := L(ViewSx(view), ViewSx(nil), NI(g.Vol(3, 8)), N(r.U64()%1000000), NI(1+r.Intn(3)))
 		g.EmitWith(0x0801, in, run0801(in), true, "large-tree-opens-gated")
 	}
 	for i := 0; i < n; i++ {
